@@ -52,6 +52,8 @@ HOSTILE_TAGS = ["os.system", "os.popen", "subprocess.Popen", "subprocess.call", 
                 "checks.c04_subs.AuditedProxy", "checks.c04_subs.TaggedURI", "checks.c04_subs.LocalDaemon", "checks.c04_subs.AuditedProxy",
                 "Pyro5.compatibility.Pyro4.Proxy", "Pyro5.compatibility.Pyro4.URI", "Pyro5.compatibility.Pyro4.Daemon", "Pyro4.core.Proxy", "Pyro4.Proxy",
                 "Pyro4.core.URI", "Pyro5.nameserver.NameServerDaemon", "Pyro5.client.Proxy2", "c04_subs.AuditedProxy",
+                # exception classes called 'error' in modules this process has loaded (only struct.error is in the closed set)
+                "zlib.error", "socket.error", "select.error", "os.error", "re.error", "binascii.error", "binascii.Error", "checks.c04_subs.error", "sqlite3.Error", "sqlite3.error",
                 # deeper dotted paths below the bait module (looking for 'checks.c04_bait.inner' as a module would import checks.c04_bait)
                 "checks.c04_bait.inner.Bait", "checks.c04_bait.Bait.attr", "checks.c04_bait.a.b.C",
                 # the tags the serpent library itself writes for values it has no literal for (Pyro accepts only serpent's float dict)
